@@ -249,8 +249,18 @@ func merge[EntityT entity.Interface](def Definition, wrapper func(e *Entity) Ent
 	// The entity handed back with the merge result is kept by the caller (the cache stores it and
 	// later commits through it), so it has to be the merged state, not the local state from before.
 	localEntity, err = read[EntityT](def, wrapper, repo, resolvers, localRef)
+	if err == nil {
+		err = localEntity.Validate()
+	}
 	if err != nil {
-		return entity.NewMergeError(err, id)
+		// Both sides are valid but joined together they are not (for instance the remote replays
+		// operations we already have, in commits of its own: every such operation is now there
+		// twice). Keep the local history.
+		if rollbackErr := repo.UpdateRef(localRef, localCommit); rollbackErr != nil {
+			return entity.NewMergeError(rollbackErr, id)
+		}
+		return entity.NewMergeInvalidStatus(id,
+			errors.Wrapf(err, "merging the remote %s into the local one gives an invalid %s", def.Typename, def.Typename).Error())
 	}
 
 	return entity.NewMergeUpdatedStatus(id, localEntity)
